@@ -462,6 +462,31 @@ func c16(e *Env) {
 				}
 				w.Stat("fault.event-burst")
 			}
+			if len(w.Nodes) < 6 && c.Choose("reconnect-inside-window-then-join", 5) == 4 {
+				// the control connection is lost and re-established *inside* the refresh window of the
+				// latest event, and one more node joins right after, announced on the new control
+				// connection while the refresh for the earlier event is still pending
+				w.RunUntil(func() bool { return false }, time.Duration(c.Choose("lost-after", 3))*time.Second)
+				for _, bc := range append([]*world.BackendConn(nil), w.ControlConns...) {
+					bc.Reset("fault: control connection lost inside the refresh window")
+				}
+				back := func() bool {
+					for _, cc := range w.ControlConns {
+						if cc.AnsweredPeers && !cc.Closed {
+							return true
+						}
+					}
+					return false
+				}
+				if w.RunUntil(back, refreshWindow-4*time.Second) {
+					n := w.AddNode(true)
+					n.Joined = true
+					addedAt[n] = w.Now()
+					w.EmitEvent(&message.TopologyChangeEvent{ChangeType: primitive.TopologyChangeTypeNewNode, Address: &primitive.Inet{Addr: n.IP, Port: 9042}})
+					w.Stat("fault.node-add")
+					e.Res.Stats["probe.c16.node_joined_after_reconnect_inside_refresh_window"]++
+				}
+			}
 			if c.Choose("control-lost-during-refresh", 4) == 3 {
 				// the control connection is lost at the moment the refresh for the latest event is
 				// due (its queries are in flight or about to be): the reconnect has to make up for it
